@@ -186,6 +186,8 @@ def embed_cases(tier: str):
         st.tuples(st.just('q'), s).map(list),
         st.tuples(st.just('b'), word).map(list),
         st.tuples(st.just('nl'), st.sampled_from(['\n', '\r\n', '\r', '\r'])).map(list),
+        # a quoted string directly after a bare CR line ending (no indentation), its value often starting with a line feed
+        st.tuples(st.just('crq'), st.one_of(s, s.map(lambda x: '\n' + x), s.map(lambda x: '\r\n' + x))).map(list),
         st.tuples(st.just('op'), st.sampled_from(['{', '}', ',', '=', '[', ']'])).map(list),
         st.tuples(st.just('flag'), word).map(list),
         st.tuples(st.just('comment'), st.text(st.sampled_from(WORD_CHARS + ' "\\/*'), max_size=8)).map(list),
@@ -234,6 +236,10 @@ def render(items, seps, multiline, string_bracket):
         if kind == 'q':
             parts.append('"' + escape_text(val, multiline) + '"')
             want.append((Token.STRING, val))
+        elif kind == 'crq':
+            parts.append('\r"' + escape_text(val, multiline) + '"')
+            want.append((Token.NEWLINE, '\n'))
+            want.append((Token.STRING, val))
         elif kind == 'b':
             parts.append(val)
             want.append((Token.STRING, val))
@@ -272,7 +278,7 @@ def execute_embed(desc, ctx):
         items = [it for it in items if not (it[0] == 'op' and it[1] in '[]')]
     head, tail = FRAMES[fmt]
     items = head + items + tail
-    quoted = [v for k, v in items if k == 'q']
+    quoted = [v for k, v in items if k in ('q', 'crq')]
     nt = any(not MUST_ESCAPE.isdisjoint(v) for v in quoted)
     ctx.nontrivial(nt and len(quoted) >= 2)
     if any('"' in v for v in quoted):
@@ -282,12 +288,14 @@ def execute_embed(desc, ctx):
     if any('\n' in v or '\r' in v for v in quoted):
         ctx.label('value_has_linebreak')
     text, want = render(items, desc['seps'], multiline, string_bracket)
-    if any(k == 'nl' and v == '\r' for k, v in items):
+    if any((k == 'nl' and v == '\r') or k == 'crq' for k, v in items):
         ctx.label('bare_cr_line_ending')
     block = 2 + len(text) % 9          # the same text also as fixed-size blocks (file.read(N)) and per character
     deliveries = [('str', text), (f'blocks-of-{block}', [text[i:i + block] for i in range(0, len(text), block)]),
                   ('chars', list(text))]
-    bare_cr = any(k == 'nl' and v == '\r' for k, v in items)
+    bare_cr = any((k == 'nl' and v == '\r') or k == 'crq' for k, v in items)
+    if any(k == 'crq' and v[:1] == '\n' for k, v in items):
+        ctx.label('string_starting_with_LF_after_bare_CR')
     if bare_cr:
         # The statement is about the STRING tokens.  After a bare CR the pinned tokenizer drops the NEWLINE token of a
         # following LF when only operator characters stand between them ('\r{\n' - observed, outside C02; DESIGN.md 3.2),
